@@ -124,6 +124,35 @@ def adversarial_designs():
                     adv()
                 return m
             yield (f"adv/array-pair/{suf or '-'}/{'before' if first else 'after'}", b)
+    # 4a. TWO designer names at once, one per element / member, with different numbers of trailing underscores
+    for s1 in suffixes:
+        for s2 in suffixes:
+            for first in (True, False):
+                def b(s1=s1, s2=s2, first=first):
+                    L = leaf()
+                    m = h.Module(name="AdvTwo")
+                    m.v = h.Signal()
+                    m.w = h.Signal(width=2)
+
+                    def adv():
+                        m.add(L()(a=m.v, b=m.v), name="arr_0" + s1)
+                        m.add(L()(a=m.v, b=m.v), name="arr_1" + s2)
+                        m.add(L()(a=m.v, b=m.v), name="pr_p" + s2)
+                        m.add(L()(a=m.v, b=m.v), name="pr_n" + s1)
+                        m.add(h.Signal(), name="bb_x" + s1)
+                        m.add(h.Signal(width=2), name="bb_y" + s2)
+                        m.add(L()(a=m.get("bb_x" + s1), b=m.get("bb_y" + s2)[0]), name="usebb")
+                    if first:
+                        adv()
+                    m.arr = 2 * L()(a=m.w, b=m.v)
+                    m.d = h.Diff()
+                    m.pr = h.Pair(L())(a=m.d, b=m.v)
+                    m.bb = bun()()
+                    m.lb = L()(a=m.bb.x, b=m.bb.y[1])
+                    if not first:
+                        adv()
+                    return m
+                yield (f"adv/two-names/{s1 or '-'}/{s2 or '-'}/{'before' if first else 'after'}", b)
     # 4b. the designer's own object under the invented name is itself a compound that elaboration takes apart (another pair,
     #     another array, a bundle instance): it is on its way out of the namespace when the invention is named
     for suf in ("", "_"):
